@@ -1044,6 +1044,12 @@ def _decorate_with_invariants(func: CallableT, is_init: bool) -> CallableT:
                 _IN_PROGRESS.set(in_progress)
 
             id_instance = id(instance)
+            if id_instance in in_progress:
+                # The constructor has been called while another constructor (e.g., of a sub-class through
+                # ``super().__init__()``) or a method of the same instance is still running. The instance is
+                # not fully constructed yet, so the invariants are checked by the outermost call.
+                return func(*args, **kwargs)
+
             in_progress.add(id_instance)
 
             # ExitStack is not used here due to performance.
